@@ -14,6 +14,7 @@ pub mod roles;
 #[cfg(not(kani))]
 pub mod selftest;
 pub mod src;
+pub mod step;
 pub mod stubs;
 pub mod c05;
 pub mod c06;
@@ -559,4 +560,9 @@ harnesses! {
     c02_l2_dd { prop: C02, feat: "c02", tier: thorough, mode: leaf, unwind: 18, caps: "drop=1" } => |s| c06::data_w(s, 4, 0);
     c02_l2_dq { prop: C02, feat: "c02", tier: thorough, mode: leaf, unwind: 18, caps: "drop=1" } => |s| c06::data_w(s, 8, 0);
     c07_hex_4k { prop: C07, feat: "c07", tier: quick, mode: hex, unwind: 270, caps: "" } => |s| c07::hex_big(s, 4090, 4100);
+    // ---- pass-level step harnesses (real build_pass_1 + build_pass_2, concrete shape, symbolic values)
+    c02_step_nop { prop: C02, feat: "c02", tier: thorough, mode: leaf, unwind: 3, caps: "drop=1,loop:avra_lib::builder::pass1::pass_1_internal.0=4,loop:avra_lib::builder::pass2::pass_2_internal.0=4" } => |s| step::layout_instr(s, 0, false);
+    c02_step_jmp { prop: C02, feat: "c02", tier: thorough, mode: leaf, unwind: 3, caps: "drop=1,loop:avra_lib::builder::pass1::pass_1_internal.0=4,loop:avra_lib::builder::pass2::pass_2_internal.0=4" } => |s| step::layout_instr(s, 1, false);
+    c02_step_lds { prop: C02, feat: "c02", tier: thorough, mode: leaf, unwind: 3, caps: "drop=1,loop:avra_lib::builder::pass1::pass_1_internal.0=4,loop:avra_lib::builder::pass2::pass_2_internal.0=4" } => |s| step::layout_instr(s, 2, false);
+    c02_step_sts8l { prop: C02, feat: "c02", tier: thorough, mode: leaf, unwind: 3, caps: "drop=1,loop:avra_lib::builder::pass1::pass_1_internal.0=4,loop:avra_lib::builder::pass2::pass_2_internal.0=4" } => |s| step::layout_instr(s, 3, true);
 }
